@@ -106,12 +106,13 @@ class QCircuitEnhanced(QCircuit):
         # TODO: replace with + invert(keep)
         scopy = copy.deepcopy(self.gates)
         uncomputed = set()
+        already_free = set(self.free_ancilla_lst)
 
         for g, qbs, p in reversed(scopy):
             if (
                 issubclass(g.__class__, gates.NopGate)
                 or qbs[-1] in keep
-                or qbs[-1] in self.free_ancilla_lst
+                or qbs[-1] in already_free
             ):
                 continue
             uncomputed.add(qbs[-1])
